@@ -292,10 +292,15 @@ func TestIpdb(t *testing.T) {
 }
 
 func ipdbScript(t *testing.T, r *Rng, s *Stream) {
+	big := r.Chance(12) // a large network: pools beyond 4096 addresses, suggestions near the top and the middle of the range
 	plen := Pick(r, 24, 24, 28, 29, 30, 32) // not 31: ipdb.New yields an empty range there and FindIP would call rand.Perm(2^32) (unreachable through server.New, see DESIGN)
 	base := uint32(10<<24 | 7<<8 | uint32(r.Intn(4)*64))
 	if r.Chance(10) {
 		base = uint32(10<<24 | 7<<8 | 250) // range touching .255
+	}
+	if big {
+		plen = Pick(r, 16, 18, 19, 20)
+		base = uint32(10<<24 | uint32(r.Intn(4))<<16 | 7)
 	}
 	db, err := ipdb.New(U32IP(base), net.CIDRMask(plen, 32))
 	if err != nil {
@@ -316,9 +321,12 @@ func ipdbScript(t *testing.T, r *Rng, s *Stream) {
 			return U32IP(start + size + uint32(r.Intn(3))) // outside
 		case 4:
 			return net.ParseIP("fe80::1")
-		default:
-			return U32IP(start + uint32(r.Intn(int(min(size, 12)))))
+		case 5, 6, 7:
+			if big {
+				return U32IP(Pick(r, start+size-2-uint32(r.Intn(12)), start+size/2+uint32(r.Intn(12)), start+4090+uint32(r.Intn(8000))%(size-4100), start+1+uint32(r.Intn(12))))
+			}
 		}
+		return U32IP(start + uint32(r.Intn(int(min(size, 12)))))
 	}
 	longd := []byte{0xff, 1, 2, 3, 4, 0, 4, 0xaa, 0xbb, 0xcc, 0xdd, 0xee, 0xff, 0x10, 0x11, 0x12, 0x13, 0x14}
 	duids := [][]byte{{1, 1, 1, 1}, {2, 2, 2, 2}, {3, 3, 3, 3}, {}, {0, 3, 0, 0, 2, 0, 0, 0, 0, 9}, append(append([]byte(nil), longd...), 1), append(append([]byte(nil), longd...), 2)}
@@ -507,6 +515,10 @@ func ipdbScript(t *testing.T, r *Rng, s *Stream) {
 			} else {
 				ans = fmt.Sprintf("ok %d", IPU32(ip))
 				// monitor (C02/C08 database side): result must be the caller's binding or an eligible address
+				if b := ref.byDuid(t0, du); (b == nil || b.ip != IPU32(ip)) && (IPU32(ip) < dynLo || IPU32(ip) > dynHi) {
+					s.Find(Finding{Property: "C02", Signature: "find-outside-dynamic-range", Stream: "ipdb", What: "a non-static address outside the dynamic range was handed out (FindIP returned an address that is neither the caller's binding nor inside the dynamic range)",
+						Ops: append(hist, op), Expected: fmt.Sprintf("within %s-%s", U32IP(dynLo), U32IP(dynHi)), Observed: ans})
+				}
 				if conflict[IPU32(ip)] && len(probes) > 0 {
 					s.Find(Finding{Property: "C11", Signature: "find-conflict", Stream: "ipdb", What: "FindIP returned an address whose probe reported a conflict", Ops: append(hist, op), Observed: ans})
 				}
